@@ -377,9 +377,19 @@ def evaluate_cfi_directives(
                 # only needs to handle instructions that aren't represented as
                 # assembly directives.
                 elif name == ".cfi_escape":
-                    for inst in cfi.parse_cfi_instructions(
-                        bytes(args), abi.byteorder(), abi.pointer_size()
-                    ):
+                    try:
+                        escaped = list(
+                            cfi.parse_cfi_instructions(
+                                bytes(args),
+                                abi.byteorder(),
+                                abi.pointer_size(),
+                            )
+                        )
+                    except EOFError as err:
+                        raise ValueError(
+                            "truncated instruction in .cfi_escape"
+                        ) from err
+                    for inst in escaped:
                         if isinstance(inst, cfi.InstDefCFAExpression):
                             state.current.cfa = CFAExpression(
                                 tuple(inst.expression)
